@@ -66,6 +66,121 @@ def schema_snapshot(s):
     return (id(s), tuple(rule_snapshot(r) for r in s.rules))
 
 
+def deep_state(o, seen=None, depth=0):
+    """attribute-level state of an object graph of the library (every attribute of every reachable
+    library object, so that a memo or cache written by a call is seen), without identities"""
+    if seen is None:
+        seen = set()
+    if depth > 40:
+        return "deep"
+    if o is None or isinstance(o, (bool, int, float, str)):
+        return (type(o).__name__, repr(o))
+    if isinstance(o, type) or callable(o) and not hasattr(o, "__dict__"):
+        return ("callable", getattr(o, "__qualname__", repr(o)))
+    if isinstance(o, (list, tuple)):
+        return (type(o).__name__, tuple(deep_state(x, seen, depth + 1) for x in o))
+    if isinstance(o, dict):
+        return ("dict", tuple((deep_state(k, seen, depth + 1), deep_state(v, seen, depth + 1)) for k, v in o.items()))
+    if isinstance(o, (set, frozenset)):
+        return ("set", tuple(sorted(repr(x) for x in o)))
+    mod = getattr(type(o), "__module__", "")
+    if mod.startswith("valida") and hasattr(o, "__dict__"):
+        if id(o) in seen:
+            return ("seen", type(o).__name__)
+        seen.add(id(o))
+        return (type(o).__name__, tuple((k, deep_state(v, seen, depth + 1)) for k, v in sorted(vars(o).items())))
+    if callable(o):
+        return ("callable", getattr(o, "__qualname__", type(o).__name__))
+    return ("other", type(o).__name__)
+
+
+def retype(v, r, p=0.5):
+    """an `==`-equal copy in which some numbers have another numeric type (1 / True / 1.0)"""
+    if isinstance(v, list):
+        return [retype(x, r, p) for x in v]
+    if isinstance(v, dict):
+        return {k: retype(x, r, p) for k, x in v.items()}
+    if isinstance(v, (bool, int, float)) and r.random() < p:
+        if v == 1:
+            return r.choice([1, True, 1.0])
+        if v == 0:
+            return r.choice([0, False, 0.0])
+        if isinstance(v, int) and not isinstance(v, bool) and abs(v) < 2 ** 53:
+            return float(v)
+        if isinstance(v, float) and v == int(v) and abs(v) < 2 ** 53:
+            return int(v)
+    return v
+
+
+def patharg_history_case(g):
+    """a shared rule whose condition has data-path arguments, tested over a history of documents some of which
+    are `==`-equal but differ in the types of their numbers: every call must leave the rule as it was and
+    give what a freshly built rule gives"""
+    from props import c17
+    r = g.r
+    doc = g.dict_(2, n=r.choice([2, 3, 4]))
+    for k in list(doc)[:2]:
+        if r.random() < 0.5:
+            doc[k] = r.choice([0, 1, True, 1.0, 2, 2.0, [1, 0], {"x": 1}])
+    keys = [k for k in doc if k is not None]
+    if not keys:
+        return None
+    k = r.choice(keys)
+    rule_parts = [("prim", k)] if r.random() < 0.6 else [("map", {"key": None, "index": None, "value": None, "condition": None,
+                                                                   "list_condition": None, "map_condition": None, "label": None})]
+    t = c17.gen_cond(g, doc)
+    if r.random() < 0.4:
+        # a type-sensitive use of the argument
+        pa = c17.gen_patharg(g, doc)
+        pa = c17.PathArg(pa.parts, "dtype", pa.multi)
+        t = ("leaf", "ValueDataType", "equal_to", [pa], {})
+    docs = [doc] + [retype(doc, r) for _ in range(r.choice([1, 2, 3]))]
+    if r.random() < 0.5:
+        docs.append(g.dict_(2, n=3))
+    order = [r.randrange(len(docs)) for _ in range(r.choice([3, 4, 6]))]
+
+    def mk():
+        return Rule(DP.DataPath(*[terms.build_part(p) for p in rule_parts]), terms.build_tree(c17.realise(t)))
+    from valida.rules import Rule
+    c = Case("patharg_history", {"path": [terms.part_desc(p) for p in rule_parts], "cond": c17.tree_py(t),
+                                 "docs": [enc.enc_val(d) for d in docs], "order": order})
+    c.py = rc.PY_HEAD + "\n".join([
+        f"mk = lambda: Rule(DataPath({', '.join(terms.part_py(p) for p in rule_parts)}), {c17.tree_py(t)})",
+        "r = mk()",
+        f"docs = {terms.repr_py(docs)}",
+        f"for i in {order}:",
+        "    rt = r.test(docs[i])",
+        "    print(i, rt.is_valid, [f.path for f in rt.failures], mk().test(docs[i]).is_valid)"])
+    built = enc.outcome(mk)
+    if built[0] != "ok":
+        return None
+    rule = built[1]
+    S = Schema([rule])
+    state = deep_state(rule)
+    for n_, i in enumerate(order):
+        use_schema = r.random() < 0.4
+        d = docs[i]
+
+        def obs(rl, sch):
+            if use_schema:
+                v = sch.validate(d)
+                return (bool(v.is_valid), v.num_failures, [enc.enc_val(tuple(f.path)) for t_ in v.rule_tests for f in t_.failures])
+            return c17.verdict(rl.test(d))
+        got = enc.outcome(lambda: obs(rule, S))
+        fresh_rule = mk()
+        want = enc.outcome(lambda: obs(fresh_rule, Schema([fresh_rule])))
+        if got != want:
+            c.fail("repeatable", f"call #{n_} on document #{i}: the shared rule gave {got!r:.200}, a freshly built one {want!r:.200}")
+            break
+        st = deep_state(rule)
+        if st != state:
+            c.fail("schema_unchanged", f"the state of the rule / its condition changed in call #{n_} on document #{i}")
+            break
+    c.nontrivial = True
+    c.features.add(("patharg", len(docs), len(order)))
+    return c
+
+
 def make_case(g, rules, docs, calls):
     r = g.r
     desc = {"rules": [rc.rule_desc(x) for x in rules], "docs": [enc.enc_val(d) for d in docs], "calls": calls}
@@ -191,6 +306,11 @@ def generate(rng, n, tier):
     g = Gen(rng, pct_strings=False, max_depth=3)
     cases = []
     while len(cases) < n:
+        if rng.random() < 0.2:
+            c = patharg_history_case(g)
+            if c is not None:
+                cases.append(c)
+            continue
         k = rng.choice([1, 2, 2, 3, 4])
         rules = [rc.gen_rule(g, cast_p=0.4) for _ in range(k)]
         # map-or-list parts with list / map conditions build combinations on the fly in every filter call
